@@ -18,6 +18,7 @@ Not decided: associativity, inverse correctness, mutual inverseness, cross-form 
 import ast
 
 from ..engine.model import AnalysisError, src, walk_own
+from ..engine.inline import Inliner, norm_text
 from .common_ops import check_dunders
 from .c06 import returns_of
 
@@ -175,10 +176,18 @@ def check(model, rep):
            'position/quaternion split of the 7-vector is not (0,1,2 | 3:)')
     init = M('__init__')
     iai = init.params[1]
+    il_init = Inliner(init)
+
+    def len_test(t):
+        """k when the test is `len(<initializer>) == k` (the length may have been given a name first)."""
+        if isinstance(t, ast.Compare) and len(t.ops) == 1 and isinstance(t.ops[0], ast.Eq) and isinstance(t.comparators[0], ast.Constant) \
+                and il_init.text(t.left) == 'len(%s)' % iai:
+            return t.comparators[0].value
+        return None
     # pair form: the branch for len == 2
     pair = None
     for n in ast.walk(init.node):
-        if isinstance(n, ast.If) and src(n.test).replace(' ', '') == 'init_arr_len==2':
+        if isinstance(n, ast.If) and len_test(n.test) == 2:
             pair = n
     if pair is None:
         rep.ob('R04.1', init, 'nested [position, rotation] pair form', False, 'the len-2 branch of the list dispatch is missing')
@@ -195,9 +204,8 @@ def check(model, rep):
     # dispatch: each list/array length routes to the constructor of that length
     routes = {}
     for n in ast.walk(init.node):
-        if isinstance(n, ast.If) and isinstance(n.test, ast.Compare) and src(n.test.left) in ('init_arr_len', 'len(%s)' % iai) \
-                and isinstance(n.test.comparators[0], ast.Constant):
-            ln = n.test.comparators[0].value
+        if isinstance(n, ast.If) and len_test(n.test) is not None:
+            ln = len_test(n.test)
             calls = [c.func.attr for s in n.body for c in ast.walk(s) if isinstance(c, ast.Call) and isinstance(c.func, ast.Attribute)
                      and c.func.attr in ('from3DOF', 'from6DOF', 'from7DOF')]
             routes.setdefault(ln, set()).update(calls)
@@ -220,16 +228,14 @@ def check(model, rep):
             asg[x.targets[0].id] = x.value
     r = returns_of(inv)
     v = r[0].value if r else None
-    inner = v.args[0] if isinstance(v, ast.Call) and src(v.func) == 'tm' and v.args else None
-    if isinstance(inner, ast.Name) and inner.id in asg:
-        inner = asg[inner.id]
-    rep.ob('R04.2', inv, 'tm(TransInv(self.TM))', inner is not None and src(inner) in ('mr.TransInv(self.TM)', 'mr.TransInv(self.gTM())'),
-           'inv() is %s' % (src(inner) if inner is not None else '?'))
+    got = Inliner(inv).text(v) if v is not None else '?'
+    rep.ob('R04.2', inv, 'tm(TransInv(self.TM))', got in ('tm(mr.TransInv(self.TM))', 'tm(mr.TransInv(self.gTM()))'), 'inv() is %s' % got)
     for name, kern in (('localToGlobal', 'LocalToGlobal'), ('globalToLocal', 'GlobalToLocal')):
         fi = model.func(HELP, name)
         r = returns_of(fi)
-        ok = bool(r) and src(r[0].value).replace(' ', '') == 'tm(mr.%s(%s.gTAA(),%s.gTAA()))' % (kern, fi.params[0], fi.params[1])
-        rep.ob('R04.2', fi, 'tm(mr.%s(reference.gTAA(), rel.gTAA()))' % kern, ok, 'wrapper is %s' % (src(r[0].value) if r else '?'))
+        got = Inliner(fi).text(r[0].value) if r else '?'
+        ok = got == 'tm(mr.%s(%s.gTAA(),%s.gTAA()))' % (kern, fi.params[0], fi.params[1])
+        rep.ob('R04.2', fi, 'tm(mr.%s(reference.gTAA(), rel.gTAA()))' % kern, ok, 'wrapper is %s' % got)
 
     # ---------------------------------------------------------------- R04.3
     rep.rule('R04.3', 'getQuat/setQuat: same scipy convention (default scalar-last), same 3x3 block, setQuat syncs')
@@ -258,17 +264,17 @@ def check(model, rep):
              ('MatrixExp3(VecToso3(reference[3:6].reshape(3))).T@(rel[0:3]-reference[0:3])',),
              ('so3ToVec(MatrixLog3(MatrixExp3(VecToso3(reference[3:6].reshape(3))).T@MatrixExp3(VecToso3(rel[3:6].reshape(3)))))',))):
         fi = model.func(PORT, name)
-        assigns = {}
-        for x in walk_own(fi.node):
-            if isinstance(x, ast.Assign) and len(x.targets) == 1 and isinstance(x.targets[0], ast.Name):
-                assigns.setdefault(x.targets[0].id, []).append(x.value)
-        stores = {src(x.targets[0]).replace(' ', ''): x.value for x in walk_own(fi.node) if isinstance(x, ast.Assign) and isinstance(x.targets[0], ast.Subscript)}
+        il = Inliner(fi)
+        rets = returns_of(fi)
+        out = rets[0].value.id if rets and isinstance(rets[0].value, ast.Name) else None
+        stores = {norm_text(x.targets[0].slice): x.value for x in walk_own(fi.node) if isinstance(x, ast.Assign) and isinstance(x.targets[0], ast.Subscript)
+                  and isinstance(x.targets[0].value, ast.Name) and x.targets[0].value.id == out}
         p, r_ = fi.params
-        pos = stores.get('ret[0:3]')
-        rod = stores.get('ret[3:6]')
+        pos = stores.get('0:3')
+        rod = stores.get('3:6')
 
         def canon(e):
-            t = norm_txt(expand(e, assigns))
+            t = norm_txt(il.text(e))
             return t.replace(p, 'reference').replace(r_, 'rel') if (p, r_) != ('reference', 'rel') else t
         gp = canon(pos) if pos is not None else '?'
         gr = canon(rod) if rod is not None else '?'
@@ -276,6 +282,5 @@ def check(model, rep):
         ok_r = any(gr == w + '.reshape(3,1)' for w in want_rod)
         rep.ob('R04.4', fi, '%s position formula' % name, ok_p, 'position part is %s' % gp)
         rep.ob('R04.4', fi, '%s rotation formula' % name, ok_r, 'rotation part is %s' % gr)
-        rets = returns_of(fi)
-        rep.ob('R04.4', fi, '%s returns the assembled 6x1' % name, bool(rets) and src(rets[0].value) == 'ret' and
-               src(assigns.get('ret', [ast.Constant(0)])[0]).replace(' ', '') == 'np.zeros((6,1))', 'result is not the assembled (6,1) vector')
+        rep.ob('R04.4', fi, '%s returns the assembled 6x1' % name, out is not None and
+               [norm_text(d) for d in il.defs(out)] == ['np.zeros((6,1))'], 'result is not the assembled (6,1) vector')
